@@ -128,6 +128,23 @@ def run(tier, seed, rng):
         tg.add_derive(0, v, seed=1, maxcuts=0, flips=0)
         tg.add_derive(1, ('pkt', 1, {0: 515, 1: v}), seed=1, maxcuts=0, flips=0)
     groups.append(tg)
+    # ---- a field selected at run time (the callable builds a fresh field per call) in classes that set a class-wide byte order: what
+    # pack writes is what unpack reads, for values that are not byte palindromes
+    for variant, (end, how) in enumerate([('little', 'lambda'), ('little', 'expr'), ('local', 'lambda'), (None, 'lambda')]):
+        opts = [('lit', ('leaf', ('int', 2, False, None, 0))), ('lit', ('leaf', ('int', 4, True, None, 0)))]
+        sel = ('choose', ('bin', 'Mod', ('field', 0), ('lit', 2)), opts)
+        fields = [{'move': None, 'body': ('elem', ('leaf', ('int', 1, False, None, 0)))},
+                  {'move': None, 'body': ('elem', ('refsel', sel, how, 0))},
+                  {'move': None, 'body': ('seq', ('refsel', sel, how, 0), (('lit', 2), 'const'), None, None, None, None)},
+                  {'move': None, 'body': ('elem', ('leaf', ('int', 2, False, None, 0)))}]
+        stable = {0: dict(end=end, align=None, sbl=None, gp=True, gu=(variant != 2), vec=True, ann=True, fields=fields)}
+        SG = pktcases.Group(stable, 92000 + variant)
+        for k, (a, b, c2) in enumerate([(0x0102, 0x0304, 0xfffe), (0x01020304, -2, 0x7f000001), (1, 256, 0x8001), (-0x01020304, 5, 0x0100)]):
+            sv = ('pkt', 0, {0: k % 2, 1: a if k % 2 == 0 else a, 2: [b, c2] if k % 2 else [b % 65536, c2 % 65536], 3: 0x0a0b})
+            if k % 2 == 0:
+                sv = ('pkt', 0, {0: 0, 1: a % 65536, 2: [b % 65536, c2 % 65536], 3: 0x0a0b})
+            SG.add_derive(0, sv, seed=1, maxcuts=0, flips=0)
+        groups.append(SG)
     records, disagreements = pktcases.run_groups(groups, 'c02')
     failures = []
     dist = dict(values=0, packed=0, reparsed_equal=0, not_serializable=0, reference_encoding_checked=0, with_positioning=0, census=0, in_sequential_theorem=0, in_extended_theorem=0)
@@ -178,7 +195,7 @@ def run(tier, seed, rng):
         elif r['kind'] == 'roundtrip' and r.get('variant') == 'base':
             o = r['outcome']
             v = r['source_value']
-            sig = 'D8 regex delimiter not kept in the value: a constructed packet packs without delimiter' if r['group'] >= 90000 else 'pack-unpack'
+            sig = 'D8 regex delimiter not kept in the value: a constructed packet packs without delimiter' if r['group'] == 90000 else 'pack-unpack'
             if 'ok' not in o:
                 failures.append(dict(kind='oracle', sig=sig, what=f"unpack(p.pack()) failed for a packet built from consistent values (assert_consistency would raise): {o}",
                                      classes=pktprops.class_source(groups, r['group']), cls=decl.cname(r['c']), value=decl.py_value(v), packed=r['raw'].hex()))
